@@ -95,6 +95,7 @@ func bindValues() []zoo.Named {
 		{"raw-with-html", json.RawMessage(`{"name":"<b>"}`)}, {"line-sep", "a\u2028b"},
 		{"result-of-int", flyt.NewResult(5)}, {"result-of-map", flyt.NewResult(map[string]any{"id": 2})}, {"error-result", flyt.NewErrorResult(fmt.Errorf("e"))}, {"zero-result", flyt.Result{}},
 		{"float-id", map[string]any{"id": 1.5}},
+		{"string-invalid-utf8", "bad\xff\xfebytes"}, {"string-invalid-utf8-in-map", map[string]any{"name": "a\xffb"}},
 		// types whose marshalers have pointer receivers, held BY VALUE (encoding/json does not call them then) and by pointer (it does)
 		{"struct-with-bigint-by-value", struct {
 			ID    int
